@@ -92,6 +92,60 @@ pub fn outcome_of<E: std::fmt::Display>(r: Result<End<Result<(), E>>, String>) -
     }
 }
 
+/// BITASIM_DISPATCH=1: never host main(), always dispatch the parsed command (the behaviour
+/// before main() joined the perimeter; kept for comparing the two)
+fn dispatch_only() -> bool {
+    static V: std::sync::OnceLock<bool> = std::sync::OnceLock::new();
+    *V.get_or_init(|| std::env::var_os("BITASIM_DISPATCH").is_some())
+}
+
+/// Runs the repository's own `main()` (as `bita::run_sim_main`) as the simulated process and
+/// maps the way it ends to an outcome: the exit status it returns or exits with, a panic, or
+/// the simulator ending the process (budget, deadlock, crash).
+fn run_hosted_main(args: &[std::ffi::OsString]) -> Outcome {
+    let _ = take_panic();
+    bita::set_sim_args(args.to_vec());
+    sys::with(|s| s.stderr.clear());
+    sys::IN_SIM_MAIN.with(|c| c.set(true));
+    let r = catch_unwind(AssertUnwindSafe(bita::run_sim_main));
+    sys::IN_SIM_MAIN.with(|c| c.set(false));
+    let said = || {
+        let e = sys::with(|s| String::from_utf8_lossy(&s.stderr).to_string());
+        // "Error: <message>\n\nCaused by:\n    <cause>" as one line
+        let e = e.trim().strip_prefix("Error: ").unwrap_or(e.trim()).to_string();
+        e.split('\n').map(|l| l.trim()).filter(|l| !l.is_empty() && *l != "Caused by:").collect::<Vec<_>>().join(": ")
+    };
+    match r {
+        Ok(code) => {
+            if code == std::process::ExitCode::SUCCESS {
+                Outcome::Success
+            } else {
+                Outcome::Error(said())
+            }
+        }
+        Err(payload) => {
+            if let Some(end) = payload.downcast_ref::<tokio::runtime::SimEnd>() {
+                return match end.0 {
+                    "StepBudget" => Outcome::StepBudget,
+                    "Deadlock" => Outcome::Deadlock,
+                    _ => Outcome::Crashed,
+                };
+            }
+            simkit::exec::abort_cleanup();
+            let exited = payload.downcast_ref::<bita::SimExit>().map(|x| x.0).or_else(|| payload.downcast_ref::<sys::SimExit>().map(|x| x.0));
+            if let Some(code) = exited {
+                simkit::count("main-called-exit");
+                return if code == 0 { Outcome::Success } else { Outcome::Error(format!("exit status {}: {}", code, said())) };
+            }
+            let p = take_panic().unwrap_or_else(|| "?".into());
+            if simkit::with(|s| std::mem::replace(&mut s.budget_exceeded, false)) {
+                return Outcome::StepBudget;
+            }
+            Outcome::Panic(p)
+        }
+    }
+}
+
 /// `bita <args>` as a simulated process. `args[0]` is the program name.
 pub fn run_cli(args: &[String]) -> CmdResult {
     let os: Vec<std::ffi::OsString> = args.iter().map(std::ffi::OsString::from).collect();
@@ -136,22 +190,34 @@ pub fn run_cli_os(args: &[std::ffi::OsString]) -> CmdResult {
         walk(std::path::Path::new("."), 0)
     }) + simkit::with(|s| s.stdin.as_ref().map(|i| i.data.len() as u64).unwrap_or(0));
     simkit::with(|s| s.step_budget = budget_before.saturating_add(visible.saturating_mul(8)));
-    // main() sets up its logger here. The harness's logger is already installed, so fern's
-    // apply() fails at its last step -- after the sinks have been built, which is the part that
-    // can touch the file system (C16)
-    let _ = catch_unwind(AssertUnwindSafe(|| bita::init_log(log_opts)));
-    let r = run_async(async move {
-        use bita::cli::CommandOpts;
-        match cmd {
-            CommandOpts::Compress(opts) => bita::compress_cmd::compress_cmd(opts).await,
-            CommandOpts::Clone(opts) => bita::clone_cmd::clone_cmd(opts).await,
-            CommandOpts::Info(opts) => bita::info_cmd::info_cmd(opts).await,
-            CommandOpts::Diff(opts) => bita::diff_cmd::diff_cmd(opts).await,
+    let outcome = if bita::SIM_MAIN && !dispatch_only() {
+        // main() of the repository under test runs as it stands (tools/gen_shadow.py: arguments
+        // from the harness, the logger's "already installed" discarded, tokio's Runtime the
+        // simulator's executor, exit(3) an unwinding): its exit status is the outcome
+        drop((cmd, log_opts));
+        simkit::count("main-hosted");
+        run_hosted_main(args)
+    } else {
+        if !bita::SIM_MAIN {
+            simkit::count("main-not-hosted:unrecognised-shape");
         }
-    });
+        // main() sets up its logger here. The harness's logger is already installed, so fern's
+        // apply() fails at its last step -- after the sinks have been built, which is the part
+        // that can touch the file system (C16)
+        let _ = catch_unwind(AssertUnwindSafe(|| bita::init_log(log_opts)));
+        let r = run_async(async move {
+            use bita::cli::CommandOpts;
+            match cmd {
+                CommandOpts::Compress(opts) => bita::compress_cmd::compress_cmd(opts).await,
+                CommandOpts::Clone(opts) => bita::clone_cmd::clone_cmd(opts).await,
+                CommandOpts::Info(opts) => bita::info_cmd::info_cmd(opts).await,
+                CommandOpts::Diff(opts) => bita::diff_cmd::diff_cmd(opts).await,
+            }
+        });
+        outcome_of(r)
+    };
     let _ = std::io::stdout().flush();
     let stdout = sys::with(|s| std::mem::take(&mut s.stdout));
-    let outcome = outcome_of(r);
     simkit::with(|s| s.event_s("cli-outcome", &outcome.class()));
     simkit::with(|s| s.step_budget = budget_before);
     let inner_panic = if matches!(outcome, Outcome::Panic(_)) { None } else { take_panic() };
